@@ -181,6 +181,7 @@ func (m recoveryMessage) EncodeBinary(w *gob.Encoder) error {
 	}
 	return w.Encode(&recoveryMessageAux{
 		PreparationPayloads: m.preparationPayloads,
+		PreCommitPayloads:   m.preCommitPayloads,
 		CommitPayloads:      m.commitPayloads,
 		ChangeViewPayloads:  m.changeViewPayloads,
 	})
@@ -224,6 +225,7 @@ func (m *recoveryMessage) DecodeBinary(r *gob.Decoder) error {
 	if m.preparationPayloads == nil {
 		m.preparationPayloads = []preparationCompact{}
 	}
+	m.preCommitPayloads = aux.PreCommitPayloads
 	m.commitPayloads = aux.CommitPayloads
 	if m.commitPayloads == nil {
 		m.commitPayloads = []commitCompact{}
